@@ -58,26 +58,28 @@ type vCacheEntry struct {
 	key, val interface{}
 }
 
-var vCacheLog []vCacheEntry
+var vCacheLogs = map[*lru.ARCCache][]vCacheEntry{} // one log per cache object
+var vCacheLog []vCacheEntry                           // (reset marker kept for the harnesses)
 var vCacheHits int
 
 func vNewARC(size int) (*lru.ARCCache, error) { return &lru.ARCCache{}, nil }
 
 func vCacheGet(c *lru.ARCCache, key interface{}) (interface{}, bool) {
-	for i := len(vCacheLog) - 1; i >= 0; i-- {
-		if vCacheLog[i].key == key {
+	log := vCacheLogs[c]
+	for i := len(log) - 1; i >= 0; i-- {
+		if log[i].key == key {
 			if verifBool("cache.evicted") {
 				return nil, false
 			}
 			vCacheHits++
-			return vCacheLog[i].val, true
+			return log[i].val, true
 		}
 	}
 	return nil, false
 }
 
 func vCacheAdd(c *lru.ARCCache, key, val interface{}) {
-	vCacheLog = append(vCacheLog, vCacheEntry{key, val})
+	vCacheLogs[c] = append(vCacheLogs[c], vCacheEntry{key, val})
 }
 
 // ---- symbolic configuration ------------------------------------------------
